@@ -319,6 +319,8 @@ def rule_align(ctx):
     # 4. decrement once per iteration, before eviction and before any continue
     dec = [st for st in ip.body if isinstance(st, ast.AugAssign) and isinstance(st.op, ast.Sub) and norm(st.target) == "secondary_usage[%s]" % sv and norm(st.value) == "1"]
     ok4 = False
+    if not dec:
+        raise AnalysisError("align: the decrement `secondary_usage[f] -= 1` was not found in the secondary loop")
     if len(dec) == 1:
         k = ip.body.index(dec[0])
         before = [n for s in ip.body[:k] for n in walk_no_nested(s) if isinstance(n, (ast.Continue, ast.Break))]
